@@ -205,6 +205,12 @@ def run(ctx):
     from .c14 import rename_rules
     rename_rules(ctx, R)
 
+    # ---- Q7 ----------------------------------------------------------------------
+    q7(ctx, R)
+    # a reply that is cut differently by the network must still end at its own status line (M1-M6 of C05)
+    from .c05 import reader_rules
+    reader_rules(ctx, R)
+
     # ---- Q5 ----------------------------------------------------------------------
     ep = R.error_parser
     ctx.rule("Q5", "errcode/errmsg are written from server data only by the error parser (elsewhere: constants)")
@@ -411,6 +417,65 @@ def q34(ctx, R):
                           "error's value is reported" % attr, node=ep.node)
     # code group covers the RFC code syntax, text group the quoted / literal forms: the error parser's first group must contain
     # the resp-code and nothing else for well-formed tails  (checked as: pattern group 1, when present, is '(' ... ')')
+
+
+def q7(ctx, R):
+    """RFC 5804: everything the server sends is UTF-8.  A reply decoded with a narrower codec makes an operation raise instead of
+    returning the server's verdict."""
+    ctx.rule("Q7", "server text is decoded as UTF-8 (directly or through a helper called with that codec)")
+    prog = ctx.program
+
+    def enc_ok(v):
+        return v is TOP or (isinstance(v, str) and v.lower().replace("_", "-") in ("utf-8", "utf8"))
+    n = 0
+    for f in R.methods.values():
+        for c in walk_no_nested(f.node):
+            if not isinstance(c, ast.Call):
+                continue
+            if isinstance(c.func, ast.Attribute) and c.func.attr == "decode":
+                n += 1
+                enc = const_value(prog, f, c.args[0]) if c.args else next(
+                    (const_value(prog, f, k.value) for k in c.keywords if k.arg == "encoding"), "utf-8")
+                if enc_ok(enc):
+                    ctx.holds("Q7", "%s: %s" % (f.qualname, norm(c)[:50]))
+                else:
+                    ctx.violation("Q7", f, "reply-codec:%s" % enc, "%s decodes server data as %r" % (f.qualname, enc), node=c,
+                                  witness='`NO "Quota d\u00e9pass\u00e9"` makes the operation raise UnicodeDecodeError instead of returning False')
+                continue
+            # a helper of the package that decodes with one of its parameters
+            g = None
+            if isinstance(c.func, ast.Attribute) and isinstance(c.func.value, ast.Name) and c.func.value.id in prog.modules:
+                g = prog.modules[c.func.value.id].funcs.get(c.func.attr)
+            elif isinstance(c.func, ast.Name):
+                g = R.module.funcs.get(c.func.id)
+            if g is None:
+                continue
+            for d in walk_no_nested(g.node):
+                if isinstance(d, ast.Call) and isinstance(d.func, ast.Attribute) and d.func.attr == "decode" and d.args and isinstance(d.args[0], ast.Name) \
+                        and d.args[0].id in g.params:
+                    n += 1
+                    a = bound_arg_plain(c, g, d.args[0].id)
+                    enc = const_value(prog, f, a) if a is not None else const_value(prog, g, g.defaults().get(d.args[0].id)) if d.args[0].id in g.defaults() else TOP
+                    if enc_ok(enc):
+                        ctx.holds("Q7", "%s: %s decodes as %s" % (f.qualname, norm(c)[:40], enc))
+                    else:
+                        ctx.violation("Q7", f, "reply-codec:%s" % enc, "%s decodes server data with %s, whose codec here is %r" % (
+                            f.qualname, norm(c)[:40], enc), node=c,
+                            witness='`NO "Quota d\u00e9pass\u00e9"` makes the operation raise UnicodeDecodeError instead of returning False')
+    ctx.need("Q7", "decode sites in the client", n, 3)
+
+
+def bound_arg_plain(call, g, pname):
+    """argument bound to parameter pname of the plain function g at this call (None: default)"""
+    params = list(g.params)
+    if pname in params:
+        i = params.index(pname)
+        if i < len(call.args):
+            return call.args[i]
+    for k in call.keywords:
+        if k.arg == pname:
+            return k.value
+    return None
 
 
 def proto_kind(pat):
